@@ -8,6 +8,8 @@ use std::path::PathBuf;
 use std::time::Instant;
 
 pub const MAX_VIOLATION_LINES: usize = 20;
+/// at most this many distinct violation keys are kept (and replay files written) per run; the rest are counted
+pub const MAX_VIOLATIONS_KEPT: usize = 300;
 
 #[derive(Clone, Copy, PartialEq, Eq, Debug)]
 pub enum Tier {
@@ -94,6 +96,7 @@ pub struct Ctx {
     pub transitions: u64,
     pub traces_validated: u64,
     pub parts: Vec<Value>,
+    pub violations_dropped: u64,
 }
 
 impl Ctx {
@@ -119,6 +122,7 @@ impl Ctx {
             transitions: 0,
             traces_validated: 0,
             parts: vec![],
+            violations_dropped: 0,
         }
     }
 
@@ -132,6 +136,14 @@ impl Ctx {
         if let Some(v) = self.violations.get_mut(key) {
             v.count += 1;
             return;
+        }
+        if self.violations.len() >= MAX_VIOLATIONS_KEPT {
+            // a listed known finding must never be crowded out by unlisted ones
+            let listed = self.known.findings.iter().any(|(p, k, _)| *p == self.prop && k == key);
+            if !listed {
+                self.violations_dropped += 1;
+                return;
+            }
         }
         self.violations.insert(
             key.to_string(),
@@ -268,6 +280,9 @@ impl Ctx {
                 println!("  key={} :: {}", key, text);
             }
         }
+        if self.violations_dropped > 0 {
+            println!("({} further distinct violations were found but not kept: at most {} are recorded per run)", self.violations_dropped, MAX_VIOLATIONS_KEPT);
+        }
         if unlisted.len() > MAX_VIOLATION_LINES {
             println!(
                 "({} further violations not printed; all replays are in {})",
@@ -307,6 +322,7 @@ impl Ctx {
             json!(unlisted.iter().map(|(k, _, _)| k.clone()).collect::<Vec<_>>()),
         );
         cov.insert("machinery_errors".into(), json!(self.machinery_errors));
+        cov.insert("further_violation_keys_not_kept".into(), json!(self.violations_dropped));
         let ev = json!({
             "property_id": self.prop,
             "tier": self.tier.name(),
